@@ -683,7 +683,12 @@ struct MemEngine : Engine {
                 if (prop == "C08") continue;
                 if (W > 1) { sweep.push_back({ti, 1, 2, (unsigned char)(W / 2), 3, 0, 2}); sweep.push_back({ti, 1, 3, (unsigned char)(W / 2 + 1 < W ? W / 2 + 1 : 1), 5, 0, 2}); }
                 if (W > 1) { unsigned ns[3] = {1, W / 2, W - 1};
-                    for (unsigned k = 0; k < 3; ++k) { sweep.push_back({ti, 1, 0, (unsigned char)ns[k], 3, 0, 2}); sweep.push_back({ti, 1, 1, (unsigned char)ns[k], 5, 0, 2});
+                    for (unsigned k = 0; k < 3; ++k) {
+                        // single-stepping is the expensive fault kind: the quick tier takes n = 1 and W-1 for the run-time form and n = W/2 for the aligned
+                        // form; the thorough tier takes all three for both (and a spread of every n, above)
+                        bool thor = tier == "thorough";
+                        if (thor || k != 1) sweep.push_back({ti, 1, 0, (unsigned char)ns[k], 3, 0, 2});
+                        if (thor || k == 1) sweep.push_back({ti, 1, 1, (unsigned char)ns[k], 5, 0, 2});
                         sweep.push_back({ti, 0, 0, (unsigned char)ns[k], 3, 0, 1}); sweep.push_back({ti, 1, 0, (unsigned char)ns[k], 3, 0, 1}); } }
                 else { sweep.push_back({ti, 1, 0, 1, 3, 0, 2}); sweep.push_back({ti, 0, 0, 1, 3, 0, 1}); sweep.push_back({ti, 1, 0, 0, 3, 0, 1}); }
             }
@@ -841,7 +846,7 @@ struct MemEngine : Engine {
                 if (!store && r.chance(1, 3)) { Step f; f.op = "fill"; f.setu("p", s.unum("p")); f.setu("len", (std::uint64_t)t->width * t->elem); f.setu("tag", r.below(1u << 24)); f.setu("cls", 1 + r.below(5)); out.steps.push_back(f); }
                 unsigned fk = (unsigned)r.below(10);
                 if ((fmask & 1) && fk < 3) s.set("fault", "watch");
-                else if ((fmask & 2) && store && fk < 5) { s.set("fault", "neigh"); s.setu("k", r.below(4096)); s.setu("ntag", r.below(1u << 20)); }
+                else if ((fmask & 2) && store && fk < (tier == "thorough" ? 5u : 3u)) { s.set("fault", "neigh"); s.setu("k", r.below(4096)); s.setu("ntag", r.below(1u << 20)); }
                 else s.set("fault", "none");
             } else if (w < 84 && t->has_gather) {
                 bool sc = r.chance(1, 2); s.op = sc ? "scatter" : "gather"; bool ct = r.chance(1, 3); if (ct && n > W) n = W;
